@@ -551,6 +551,77 @@ fn scheduler_engine(rep: &mut Report, args: &Args, only: Option<u64>) {
             Err((sig, d)) => rep.violate(&format!("scheduler {sig}"), d, json!({"index": idx, "config": cfg.json()})),
         }
     }
+    // a credential registered through U2F by one authenticator and then asserted (CTAP2, the key handle in the
+    // allow list) by several authenticators sharing the store, one ceremony after the other, whatever the
+    // authenticators' own setting for new credentials is: U2F-registered credentials count, so the counters are
+    // pairwise distinct and the largest is the stored one
+    let mut u2f_idx = 900u64;
+    for lock in [LockKind::Mutex, LockKind::RwLock] {
+        for (reg_counters, assert_counters) in [(false, false), (false, true), (true, false), (true, true)] {
+            u2f_idx += 1;
+            let idx = u2f_idx;
+            if only.map_or(false, |o| o != idx) {
+                continue;
+            }
+            rep.eval();
+            let case = json!({"index": idx, "engine": "sequential", "part": "U2F registration, then CTAP2 assertions with the key handle from three authenticators in turn", "lock": format!("{lock:?}"), "registering_authenticator_creates_counters": reg_counters, "asserting_authenticators_create_counters": assert_counters});
+            rep.nontrivial(fnv(case.to_string().as_bytes()));
+            let r = catch(|| {
+                let log = crate::collab::Log::new();
+                macro_rules! go {
+                    ($shared:expr, $snap:expr) => {{
+                        let shared = $shared;
+                        let uv = |i: usize| RecUv::new(log.clone(), UvOutcome::Check { presence: true, verification: true }, Some(true)).with_actor(i);
+                        let mut reg = mk_auth(shared.clone(), uv(0), AuthCfg { counters: reg_counters, ..Default::default() });
+                        let registered = crate::exec::block_on(passkey_authenticator::U2fApi::register(&mut reg, passkey_types::u2f::RegisterRequest { challenge: [3u8; 32], application: [7u8; 32] }, &U2F_HANDLE)).is_ok();
+                        let after_reg: Vec<CredSnap> = $snap(&shared);
+                        let rp = after_reg.iter().find(|c| c.id == U2F_HANDLE).map(|c| c.rp_id.clone()).unwrap_or_default();
+                        let mut others = vec![reg, mk_auth(shared.clone(), uv(1), AuthCfg { counters: assert_counters, ..Default::default() }), mk_auth(shared.clone(), uv(2), AuthCfg { counters: assert_counters, ..Default::default() })];
+                        let mut counters: Vec<Result<u32, u8>> = Vec::new();
+                        for k in 0..7usize {
+                            let a = &mut others[k % 3];
+                            counters.push(crate::exec::block_on(a.get_assertion(ga_request(&rp, &[k as u8; 32], Some(vec![descriptor(&U2F_HANDLE)]), None, true, true))).map(|r| authdata::decode(&r.auth_data.to_vec()).map(|d| d.counter).unwrap_or(0)).map_err(|e| status_byte_ref(&e)));
+                        }
+                        drop(others);
+                        let fin: Vec<CredSnap> = $snap(&shared);
+                        (registered, counters, fin)
+                    }};
+                }
+                match lock {
+                    LockKind::Mutex => go!(Arc::new(tokio::sync::Mutex::new(MemoryStore::new())), |s: &Arc<tokio::sync::Mutex<MemoryStore>>| s.try_lock().map(|g| g.values().map(snap_passkey).collect()).unwrap_or_default()),
+                    LockKind::RwLock => go!(Arc::new(tokio::sync::RwLock::new(MemoryStore::new())), |s: &Arc<tokio::sync::RwLock<MemoryStore>>| s.try_read().map(|g| g.values().map(snap_passkey).collect()).unwrap_or_default()),
+                }
+            });
+            match r {
+                Err((sig, d)) => rep.violate(&format!("sequential {sig}"), d, case),
+                Ok((registered, counters, fin)) => {
+                    if !registered {
+                        rep.count("u2f_shared_registration_refused");
+                        continue;
+                    }
+                    let Some(stored) = fin.iter().find(|c| c.id == U2F_HANDLE) else {
+                        rep.violate("sequential: a successful U2F registration's credential is not in the shared store afterwards", String::new(), case);
+                        continue;
+                    };
+                    let ok: Vec<u32> = counters.iter().filter_map(|c| c.as_ref().ok().copied()).collect();
+                    rep.count_n("u2f_shared_assertions_checked", ok.len() as u64);
+                    if ok.len() < 2 {
+                        rep.count("u2f_shared_assertions_refused");
+                        rep.obs("u2f_shared_assertion_statuses", json!(format!("{counters:?}")));
+                        continue;
+                    }
+                    let mut d = ok.clone();
+                    d.sort_unstable();
+                    d.dedup();
+                    if d.len() != ok.len() {
+                        rep.violate("sequential: two assertions on one U2F-registered credential carry the same counter although no two ceremonies overlapped", format!("counters {ok:?}, stored {:?}", stored.counter), case.clone());
+                    } else if stored.counter != ok.iter().max().copied() {
+                        rep.violate("sequential: largest reported counter of a U2F-registered credential is not the stored value although no two ceremonies overlapped", format!("counters {ok:?}, stored {:?}", stored.counter), case.clone());
+                    }
+                }
+            }
+        }
+    }
 }
 
 // ---------------------------------------------------------------------------------------------
